@@ -208,8 +208,11 @@ class SymmetryAnalyzer(object):
         rotations = operations["rotations"]
         chiral = True
         for rotation in rotations:
+            # The rotations are integer matrices with determinant +1 or -1,
+            # but the determinant is computed in floating point arithmetic
+            # and is not exactly -1.0 in all lattice bases.
             determinant = np.linalg.det(rotation)
-            if determinant == -1.0:
+            if determinant < 0:
                 return False
 
         return chiral
